@@ -8,6 +8,7 @@ import (
 	"fmt"
 	"math/big"
 	"math/rand"
+	"reflect"
 	"sort"
 	"strings"
 	"testing"
@@ -98,7 +99,7 @@ func (h *c13pHarness) record(ext skytypes.OutgoingTxBatch, via string) c13pPub {
 	p := c13pPub{tok: e.tokenOfContract(ext.TokenContract), nonce: int(ext.BatchNonce), est: ext.GasEstimate, tag: h.tagOf(ext), ext: ext, epoch: h.epoch, via: via}
 	key := hex.EncodeToString(ext.BytesToSign)
 	p.pre = h.preImp[key]
-	if !e.raw.GetPastEthSignatureCheckpoint(e.ctx, ext.BytesToSign) {
+	if !c13pArchived(e, ext.BytesToSign) {
 		if h.preImp[key] {
 			h.hitOnce("genuine_confirmation_safe", fmt.Sprintf("%s publishes signing bytes of batch %d/%d (estimate %d) that are not in the archive of issued checkpoints after a genesis export / import of the bridge module", via, p.tok, p.nonce, p.est), true)
 		} else {
@@ -472,4 +473,27 @@ func c13pCase(t *testing.T, r *Rec, nops int, directed bool) {
 		}
 	}
 	r.Case(strings.Join(b.ops, "|"), nonTrivial)
+}
+
+// c13pArchived asks the keeper's archive of issued checkpoints.  The call goes through reflection so that the harness
+// still builds (and the monitors still run) on a tree where the archive's look-up takes the chain as well: a parameter
+// of type string receives the chain the batch was built for.
+func c13pArchived(e *skyEnv, checkpoint []byte) bool {
+	m := reflect.ValueOf(e.raw).MethodByName("GetPastEthSignatureCheckpoint")
+	if !m.IsValid() {
+		panic("the keeper has no GetPastEthSignatureCheckpoint")
+	}
+	var args []reflect.Value
+	for i := 0; i < m.Type().NumIn(); i++ {
+		switch in := m.Type().In(i); {
+		case in.Kind() == reflect.String:
+			args = append(args, reflect.ValueOf(skyChain).Convert(in))
+		case in.Kind() == reflect.Slice:
+			args = append(args, reflect.ValueOf(checkpoint))
+		default:
+			args = append(args, reflect.ValueOf(e.ctx))
+		}
+	}
+	out := m.Call(args)
+	return len(out) > 0 && out[0].Kind() == reflect.Bool && out[0].Bool()
 }
